@@ -503,3 +503,80 @@ func TestVerifC24(t *testing.T) {
 		rec.Case(fmt.Sprintf("N=%d rf=%d nodes=%d %s %v", n, rf, nodes, algo, acts), nt, classes...)
 	})
 }
+
+// reload re-reads the limits configuration the way the config reloader does (Limiter.loadConfig installs
+// a fresh gate on every reload, also when max_concurrency is unchanged) and puts the reporting wrapper
+// around the new gate.
+func (r *c24Run) reload() {
+	r.logf("the limits configuration is reloaded (same max_concurrency)")
+	l := r.hz.h.Limiter
+	if err := l.loadConfig(); err != nil {
+		r.tb.Fatalf("harness: reload of the limits configuration failed: %v", err)
+	}
+	l.Lock()
+	l.writeGate = &c24Gate{inner: l.writeGate, ev: r.gate.ev}
+	l.Unlock()
+}
+
+// TestVerifC24_Reload: requests that wait at the full gate while the limits configuration is reloaded.
+// The unchanged code lets holders of the old and of the new gate overlap for a moment after a reload
+// (outside the statement's quantifier), so the schedule keeps new arrivals away until the old gate has
+// drained, and asserts only what the statement says for waiting requests and for the settled state:
+// no request crashes (a Done on a gate that was never Started panics in the gate), and once everything
+// has drained the gate in force admits exactly max_concurrency requests again.
+func TestVerifC24_Reload(t *testing.T) {
+	rec := kit.For(t, "C24")
+	rec.Check(t, func(rt *rapid.T) {
+		n := rapid.IntRange(1, 3).Draw(rt, "max_concurrency")
+		waiting := rapid.IntRange(1, 3).Draw(rt, "waiting")
+		kinds := rapid.SliceOfN(rapid.SampledFrom([]string{"v1", "otlp", "v2"}), 2*n+waiting+1, 2*n+waiting+1).Draw(rt, "endpoints")
+		reloads := rapid.IntRange(1, 2).Draw(rt, "reloads")
+		picks := rapid.SliceOfN(rapid.IntRange(0, 5), n+waiting, n+waiting).Draw(rt, "releaseOrder")
+		r := c24NewRun(t, n, 1, 1, AlgorithmHashmod)
+		k := 0
+		for i := 0; i < n+waiting && r.viol == ""; i++ { // fill the gate, then let requests queue up
+			r.start(kinds[k], false)
+			k++
+		}
+		queuedAtReload := len(r.queued())
+		for i := 0; i < reloads && r.viol == ""; i++ {
+			r.reload()
+		}
+		for _, p := range picks { // drain: the waiting requests get the old gate's slots one by one
+			if r.viol != "" {
+				break
+			}
+			if cand := r.inFlight(); len(cand) > 0 {
+				r.releaseReq(cand[p%len(cand)])
+			}
+		}
+		for r.viol == "" {
+			cand := r.inFlight()
+			if len(cand) == 0 {
+				break
+			}
+			r.releaseReq(cand[0])
+		}
+		settled := false
+		if r.viol == "" && len(r.queued()) == 0 && r.held == 0 {
+			// settled: the gate now in force admits n requests and makes the next one wait
+			settled = true
+			for i := 0; i < n+1 && r.viol == ""; i++ {
+				r.start(kinds[k], false)
+				k++
+			}
+			if r.viol == "" && len(r.inFlight()) != n {
+				r.viol = fmt.Sprintf("after the reload settled %d requests are in flight with %d more started, max_concurrency is %d", len(r.inFlight()), n+1, n)
+			}
+		}
+		r.finish()
+		if r.viol != "" {
+			rt.Fatalf("C24 violated (reload while requests wait): %s\nmax_concurrency=%d waiting=%d reloads=%d\nhistory:\n%s", r.viol, n, waiting, reloads, r.history())
+		}
+		classes := []string{"reload-while-queued", fmt.Sprintf("limit-%d", n), fmt.Sprintf("queued-at-reload-%d", queuedAtReload)}
+		if settled {
+			classes = append(classes, "settled-gate-probed")
+		}
+		rec.Case(fmt.Sprintf("reload N=%d waiting=%d reloads=%d kinds=%v order=%v", n, waiting, reloads, kinds, picks), queuedAtReload > 0 && r.sawQueuedAdmitted, classes...)
+	})
+}
